@@ -52,7 +52,7 @@ def standard(res, args, pid, theorems, note):
                         "the remaining bits (all-zero, all-one, random), all 256 values of every enumerated byte, all lengths 0..64 x {zero, ones, "
                         "random} x {cap == len, spare capacity poisoned with 0xA5 / 0xFF}, complete records with six kinds of suffix; every "
                         "result is compared with the translated decoder (translator validation) and judged by spec_decode of the layout. %s"
-                        % (12 if res.tier == "quick" else 22, note),
+                        % (12 if res.tier == "quick" else 16, note),
                    samples=lines[:: max(1, len(lines) // 6)][:6], disagreements_checked=r["mism"],
                    judge_failures=r["bad7"] if pid == "C07" else r["bad8"])
     for l in r["out"].splitlines():
